@@ -13,6 +13,12 @@ Usage: gen_constants.py <repo> <out.lean>     (writes only when the content chan
 """
 import re, sys, os
 
+SHAPE_FILES = [("shapeServer", "src/server.rs"), ("shapeClient", "src/client.rs"), ("shapeSrpInternal", "src/srp_internal.rs"),
+               ("shapeSrpInternalClient", "src/srp_internal_client.rs"), ("shapeNStr", "src/normalized_string.rs"),
+               ("shapeVanillaMod", "src/vanilla_header/mod.rs"), ("shapeTbcMod", "src/tbc_header/mod.rs"), ("shapeWrathMod", "src/wrath_header/mod.rs"),
+               ("shapeVanillaInternal", "src/vanilla_header/internal.rs"), ("shapePin", "src/pin.rs"), ("shapeIntegrity", "src/integrity.rs"),
+               ("shapeMatrixCard", "src/matrix_card.rs"), ("shapeRc4", "src/rc4.rs")]
+
 class Missing(Exception):
     pass
 
@@ -559,14 +565,9 @@ def main():
             ops = re.findall(r'==|!=|<=|>=|&&|\|\||(?<![-=<>])<(?![<=])|(?<![-=>])>(?![>=])', re.sub(r'::<[^>]*>|->|=>', '', body))
             out.append("%s: calls=%s; control=%s; ops=%s" % (m.group(1), ",".join(calls), ",".join(ctrl), ",".join(ops)))
         return out
-    srv_t, cli_t = src("src/server.rs"), src("src/client.rs")
-    layout_put("shapeSrpApi", lambda: fn_shapes(srv_t, "server.rs") + fn_shapes(cli_t, "client.rs"), "server.rs, client.rs: per function the ordered calls, control-flow keywords and comparison operators")
-    layout_put("shapeSrpInternal", lambda: fn_shapes(srpi, "srp_internal.rs") + fn_shapes(srpc, "srp_internal_client.rs") + fn_shapes(ns, "normalized_string.rs"),
-               "srp_internal.rs, srp_internal_client.rs, normalized_string.rs: per function the ordered calls, control-flow keywords and comparison operators")
-    layout_put("shapeHeaderMods", lambda: fn_shapes(van, "vanilla_header/mod.rs") + fn_shapes(tbm, "tbc_header/mod.rs") + fn_shapes(wm, "wrath_header/mod.rs") + fn_shapes(vint, "vanilla_header/internal.rs"),
-               "the three header mod.rs and vanilla_header/internal.rs: per function the ordered calls, control-flow keywords and comparison operators")
-    layout_put("shapeAux", lambda: fn_shapes(pin, "pin.rs") + fn_shapes(integ, "integrity.rs") + fn_shapes(mc, "matrix_card.rs") + fn_shapes(src("src/rc4.rs"), "rc4.rs"),
-               "pin.rs, integrity.rs, matrix_card.rs, rc4.rs: per function the ordered calls, control-flow keywords and comparison operators")
+    # one fact per FILE, so that a rewrite in pin.rs breaks the obligations of the properties that read pin.rs and no others
+    for sname, rel in SHAPE_FILES:
+        layout_put(sname, lambda rel=rel: fn_shapes(src(rel), rel[4:]), rel[4:] + ": per function the ordered calls, control-flow keywords and comparison operators")
 
     # semantics the model takes from `#[derive(..)]`: Clone is a field-wise copy, == / Ord / Hash are structural over all fields,
     # nothing runs on drop, Default is what the listed impls say.  The translator lists (a) every hand-written impl of one of those
